@@ -116,7 +116,7 @@ prop("C03", [rr.r_walk, rr.r_addr_open, rr.r_exact_tile, rr.r_meta0, rr.r_fieldm
      ["R-WALK", "R-ADDR", "R-EXACT-TILE", "R-META0", "R-FIELDMAP (reader)", "R-FIND", "R-COLS/R-DELTA/R-OFFRULE (decoder)"],
      [RUNTIME, "correctness on every foreign layout at run time"])
 
-prop("C04", [st.r_hashid, st.r_add_pair, st.r_remove_guard, st.r_lookup, st.r_rej_empty, rr.r_exact_tile, st.r_finish_pair, st.r_rle_dep, rr.r_addr_open, rr.r_walk, st.r_order],
+prop("C04", [st.r_hashid, st.r_add_pair, st.r_remove_guard, st.r_lookup, st.r_rej_empty, rr.r_exact_tile, st.r_finish_pair, st.r_rle_dep, rr.r_addr_open, rr.r_walk, st.r_order, rd.r_cols_writer, rd.r_cols_reader, rw.r_layout_w, rs.r_leafptr],
      "Structural necessary conditions each store mutator must satisfy for the store to behave like a map: add removes the old binding and performs exactly one "
      "consistent insert into each map, remove drops bytes only under an emptiness test made after removing the id, lookup resolves the requested id and answers None "
      "for unknown ids, and content identity is not decided by the 64-bit hash alone (R-HASHID: known finding with a concrete colliding pair).",
@@ -157,21 +157,21 @@ prop("C09", [rh.r_hdr_layout, rh.r_hdr_io, rh.r_hdr_reject, rh.r_round],
      ["R-HDR-LAYOUT", "R-HDR-IO", "R-HDR-REJECT", "R-ROUND"],
      ["deku's generated code", "the exhaustive 2^32 coordinate claim (implied by R-ROUND and an error bound, not enumerated)"])
 
-prop("C10", [st.r_hashid, st.r_finish_pair, st.r_rle_dep, st.r_remove_guard, st.r_add_pair, rr.r_exact_tile, st.r_order, st.r_lookup],
+prop("C10", [st.r_hashid, st.r_finish_pair, st.r_rle_dep, st.r_remove_guard, st.r_add_pair, rr.r_exact_tile, st.r_order, st.r_lookup, rd.r_cols_writer, rd.r_cols_reader],
      "Layout: bytes are appended exactly on the dedup miss, once, with the offset read before the append and the length of the appended content; a hit reuses the "
      "stored pair; reader-backed tiles are hashed with the same function; a run is extended only for the adjacent id with an equal offset, by one; in memory, bytes "
      "are dropped only when the last id goes away. R-HASHID (identity by bytes) is a known finding.",
      ["R-FINISH-PAIR", "R-COUNTERS", "R-RLE-DEP", "R-REMOVE-GUARD", "R-ADD-PAIR", "R-HASHID"],
      [RUNTIME, "minimality over all duplication patterns", "retention over edit histories"])
 
-prop("C11", [tt.r_range_end, tt.r_leaf_skip_and_filter, tt.r_partial_same, rr.r_walk, rr.r_addr_open],
+prop("C11", [tt.r_range_end, tt.r_leaf_skip_and_filter, tt.r_partial_same, rr.r_walk, rr.r_addr_open, rd.r_cols_reader, rr.r_bounded_read],
      "The inclusive range end is computed without unchecked arithmetic for all three bound kinds; every map insert in the walker is dominated by "
      "filter_range.contains(&id) for the inserted id and the filter is forwarded unchanged; a leaf is skipped only on `first id > inclusive end` (strict, unbounded ⇒ "
      "never, independent of the start bound); full and partial opens are one implementation differing only in the range argument.",
      ["R-RANGE-END", "R-FILTER-GUARD", "R-LEAF-SKIP", "R-PARTIAL-SAME"],
      [RUNTIME])
 
-prop("C12", [rt.r_twin, rt.r_factory],
+prop("C12", [rt.r_twin, rt.r_factory, rd.r_dir_twins],
      "Sibling agreement on code the test suite never compiles: every sync/async pair instantiated from one duplicate_item template must be isomorphic after making "
      "`?`, .await and async blocks transparent and mapping callees through the twin table (Read↔AsyncReadExt, flush↔close for codec writers, read_varint↔_async, local "
      "f↔f_async; integer type arguments must agree); hand-written pairs must have the same stream-effect/parser skeleton; the four codec factories must agree per variant.",
@@ -198,7 +198,7 @@ prop("C15", [rt.r_result_used, rt.r_finalise, rt.r_no_unwrap],
      ["R-RESULT-USED", "R-NO-UNWRAP", "R-FINALISE"],
      ["exhaustive fault points at run time", "completeness of library error paths"])
 
-prop("C16", [st.r_order, st.r_hash_noleak, rc.r_cfg_jsonorder, rh.r_round, st.r_finish_pair, st.r_add_pair, st.r_remove_guard, st.r_rle_dep, rw.r_layout_w, rs.r_leafptr, rs.r_budget, rd.r_cols_writer, st.r_clustered],
+prop("C16", [st.r_order, st.r_hash_noleak, rc.r_cfg_jsonorder, rh.r_round, st.r_finish_pair, st.r_add_pair, st.r_remove_guard, st.r_rle_dep, rw.r_layout_w, rs.r_leafptr, rs.r_budget, rd.r_cols_writer, st.r_clustered, rd.r_cols_reader],
      "Sources of non-canonical output are closed structurally: the only hash-ordered iteration on the write path is sorted ascending by tile id before layout; content "
      "hashes are used only as map keys; serde_json is resolved without preserve_order and ahash with fixed keys; stored coordinates survive decode→encode (R-ROUND); "
      "in-memory and reader-backed tiles take the same layout path.",
